@@ -532,7 +532,7 @@ def unchunk(X, lengths=None, overlap=0):
 			e = -(overlap - s)
 
 			if X_.shape[0] == 1:
-				X_ = X_[..., s:e].moveaxis(0, -2).reshape(*X_.shape[1:-1], -1)
+				X_ = X_[0]
 			elif X_.shape[0] == 2:
 				X_ = torch.cat([X_[0, ..., :e], X_[1, ..., s:]], dim=-1)
 			else:
